@@ -27,6 +27,7 @@ const (
 	stCond          // parked until cond() holds
 	stBlocked       // observed durably blocked inside a real operation
 	stDone
+	stUnborn // task id reserved (context.AfterFunc registered) but its goroutine has not started
 )
 
 // Task is one simulated thread of control.
@@ -441,7 +442,7 @@ func (s *Sim) LiveTasks() []string {
 	defer s.mu.Unlock()
 	for _, t := range s.tasks {
 		st := atomic.LoadInt32(&t.state)
-		if st == stDone {
+		if st == stDone || st == stUnborn {
 			continue
 		}
 		desc := map[int32]string{stRunning: "running", stReady: "ready", stCond: "wait:" + t.condName, stBlocked: "blocked"}[st]
@@ -455,7 +456,7 @@ func (s *Sim) NumLive() int {
 	n := 0
 	s.mu.Lock()
 	for _, t := range s.tasks {
-		if atomic.LoadInt32(&t.state) != stDone {
+		if st := atomic.LoadInt32(&t.state); st != stDone && st != stUnborn {
 			n++
 		}
 	}
